@@ -56,6 +56,16 @@ class ThreadedWorld(world.World):
         req = copy.deepcopy(script[i])
         req['actor'] = ai
         frame = reqs.build_request(req, self.resolve, now=self.clock.now)
+        if req.get('mut'):
+            from sim import mutate, monitors
+            try:
+                bad = mutate.apply(frame, req['mut'])
+                fr, left = monitors.split_frames(bad)
+                # keep the stream framed: exactly one complete frame
+                if len(fr) == 1 and not left:
+                    frame = bad
+            except Exception:
+                pass
         seq = self.sched.event('invoke', actor=ai, idx=i)
         h = {'actor': ai, 'idx': i, 'req': req, 'frame': frame,
              'invoke': seq, 'ret': None, 'sent': None}
